@@ -4,6 +4,8 @@ import (
 	"context"
 	"io"
 
+	"github.com/ipld/go-ipld-prime/codec/dagcbor"
+
 	"github.com/ipfs/go-graphsync"
 	gsmsg "github.com/ipfs/go-graphsync/message"
 	"github.com/ipfs/go-graphsync/notifications"
@@ -18,6 +20,9 @@ type Builder struct {
 	responseStreams map[graphsync.RequestID]io.Closer
 	subscribers     map[graphsync.RequestID]notifications.Subscriber
 	blockData       map[graphsync.RequestID][]graphsync.BlockData
+	// extSizes tracks the encoded size of response extension data per request: memory is
+	// reserved for it when it is queued, so it has to be released with the message
+	extSizes map[graphsync.RequestID]uint64
 }
 
 // NewBuilder sets up a new builder for the given topic
@@ -29,6 +34,7 @@ func NewBuilder(ctx context.Context, topic Topic) *Builder {
 		responseStreams: make(map[graphsync.RequestID]io.Closer),
 		subscribers:     make(map[graphsync.RequestID]notifications.Subscriber),
 		blockData:       make(map[graphsync.RequestID][]graphsync.BlockData),
+		extSizes:        make(map[graphsync.RequestID]uint64),
 	}
 }
 
@@ -51,14 +57,38 @@ func (b *Builder) AddBlockData(requestID graphsync.RequestID, blockData graphsyn
 	b.blockData[requestID] = append(b.blockData[requestID], blockData)
 }
 
+// AddExtensionData adds the given extension data to the message and accounts for its size
+func (b *Builder) AddExtensionData(requestID graphsync.RequestID, extension graphsync.ExtensionData) {
+	if extension.Data != nil {
+		if size, err := dagcbor.EncodedLength(extension.Data); err == nil {
+			b.extSizes[requestID] += uint64(size)
+		}
+	}
+	b.Builder.AddExtensionData(requestID, extension)
+}
+
+// accountedSize is the amount of memory reserved for the content of this message:
+// block data plus response extension data
+func (b *Builder) accountedSize() uint64 {
+	size := b.BlockSize()
+	for _, extSize := range b.extSizes {
+		size += extSize
+	}
+	return size
+}
+
 // ScrubResponse removes the given responses from the message and metadata
+// and returns the amount of accounted memory this frees
 func (b *Builder) ScrubResponses(requestIDs []graphsync.RequestID) uint64 {
+	freedExtensions := uint64(0)
 	for _, requestID := range requestIDs {
 		delete(b.responseStreams, requestID)
 		delete(b.subscribers, requestID)
 		delete(b.blockData, requestID)
+		freedExtensions += b.extSizes[requestID]
+		delete(b.extSizes, requestID)
 	}
-	return b.Builder.ScrubResponses(requestIDs)
+	return b.Builder.ScrubResponses(requestIDs) + freedExtensions
 }
 
 // ResponseStreams inspect current response stream state
@@ -91,7 +121,7 @@ func (b *Builder) build(publisher notifications.Publisher) (gsmsg.GraphSyncMessa
 		},
 		ctx:             b.ctx,
 		topic:           b.topic,
-		msgSize:         b.BlockSize(),
+		msgSize:         b.accountedSize(),
 		responseStreams: b.responseStreams,
 	}, nil
 }
